@@ -172,9 +172,7 @@ fn do_replay(prop: &'static PropDef, path: &str) -> i32 {
     let case = doc["case_hex"].as_str().and_then(unhex).unwrap_or_else(|| machinery("replay has no case_hex"));
     let once = || {
         let mut acc = Acc::scratch();
-        acc.begin(&case);
-        (prop.judge)(&case, &mut acc);
-        acc.end();
+        run_judge(prop.judge, &case, &mut acc);
         let mut all: Vec<Violation> = acc.viols.into_values().flatten().collect();
         all.sort();
         all
